@@ -517,6 +517,7 @@ func (cpu *CPU) cmdRead() byte {
 
 	case m_DP_Indirect_Long,
 		m_DP_Indirect_Long_Y,
+		m_DP_Indirect_Y,
 		m_Absolute_Long,
 		m_Absolute_Long_X,
 		m_Absolute_X,
@@ -526,8 +527,7 @@ func (cpu *CPU) cmdRead() byte {
 
 	case m_Absolute,
 		m_DP_X_Indirect,
-		m_DP_Indirect,
-		m_DP_Indirect_Y:
+		m_DP_Indirect:
 		return cpu.nRead(cpu.RDBR, cpu.StepInfo.Addr)
 
 	default:
@@ -553,6 +553,7 @@ func (cpu *CPU) cmdRead16() uint16 {
 
 	case m_DP_Indirect_Long,
 		m_DP_Indirect_Long_Y,
+		m_DP_Indirect_Y,
 		m_Absolute_Long,
 		m_Absolute_Long_X,
 		m_Absolute_X,
@@ -565,8 +566,7 @@ func (cpu *CPU) cmdRead16() uint16 {
 
 	case m_Absolute,
 		m_DP_X_Indirect,
-		m_DP_Indirect,
-		m_DP_Indirect_Y:
+		m_DP_Indirect:
 		return cpu.nRead16_cross(cpu.RDBR, cpu.StepInfo.Addr)
 
 	default:
@@ -585,6 +585,7 @@ func (cpu *CPU) cmdWrite(value byte) {
 
 	case m_DP_Indirect_Long,
 		m_DP_Indirect_Long_Y,
+		m_DP_Indirect_Y,
 		m_Absolute_Long,
 		m_Absolute_Long_X,
 		m_Absolute_X,
@@ -594,8 +595,7 @@ func (cpu *CPU) cmdWrite(value byte) {
 
 	case m_Absolute,
 		m_DP_X_Indirect,
-		m_DP_Indirect,
-		m_DP_Indirect_Y:
+		m_DP_Indirect:
 		cpu.nWrite(cpu.RDBR, cpu.StepInfo.Addr, value)
 
 	default:
@@ -613,6 +613,7 @@ func (cpu *CPU) cmdWrite16(value uint16) {
 
 	case m_DP_Indirect_Long,
 		m_DP_Indirect_Long_Y,
+		m_DP_Indirect_Y,
 		m_Absolute_Long,
 		m_Absolute_Long_X,
 		m_Absolute_X,
@@ -625,8 +626,7 @@ func (cpu *CPU) cmdWrite16(value uint16) {
 
 	case m_Absolute,
 		m_DP_X_Indirect,
-		m_DP_Indirect,
-		m_DP_Indirect_Y:
+		m_DP_Indirect:
 		cpu.nWrite16_cross(cpu.RDBR, cpu.StepInfo.Addr, value)
 
 	default:
@@ -957,12 +957,14 @@ func (cpu *CPU) Step() (int, bool) {
 	// ($12), Y       - p. 304 or 5.12
 	case m_DP_Indirect_Y:
 		arg8 = cpu.nRead(cpu.RK, cpu.PC+1)
+		arg16 = cpu.nRead16_wrap(0, uint16(arg8)+cpu.RD)
+		// the index is added to the 24-bit address DBR:pointer and may carry into the next bank
 		if cpu.X == 1 {
-			addr = cpu.nRead16_wrap(0, uint16(arg8)+cpu.RD) + uint16(cpu.RYl)
-			pageCrossed = pagesDiffer(addr-uint16(cpu.RYl), addr)
+			ea = ((uint32(cpu.RDBR)<<16 | uint32(arg16)) + uint32(cpu.RYl)) & 0x00ffffff // wrap on 24bits
+			pageCrossed = pagesDiffer(arg16, arg16+uint16(cpu.RYl))
 		} else {
-			addr = cpu.nRead16_wrap(0, uint16(arg8)+cpu.RD) + cpu.RY
-			pageCrossed = pagesDiffer(addr-cpu.RY, addr)
+			ea = ((uint32(cpu.RDBR)<<16 | uint32(arg16)) + uint32(cpu.RY)) & 0x00ffffff // wrap on 24bits
+			pageCrossed = pagesDiffer(arg16, arg16+cpu.RY)
 		}
 
 	// [$12], Y       - p. 305 or 5.13
